@@ -97,6 +97,11 @@ def s2_net_delta(ctx):
             continue
         f = dict(v[2])
         net = T.t_sub(f.get('buy_quantity', ZERO), f.get('sell_quantity', ZERO))
+        bq_, sq_ = f.get('buy_quantity'), f.get('sell_quantity')
+        if bq_ is None or sq_ is None or bq_ == V('buy_quantity') or sq_ == V('sell_quantity'):
+            # the constructed object does not show the two quantities as values handed to its constructor (kept elsewhere / passed through under their own names)
+            ctx.undecided('C02.S2', 'a new position opens with net quantity = fill quantity [%s]' % cond_str(p), ctx.fn('Position.open_from_transaction').site(), fmt(net)[:80])
+            continue
         ctx.require(same(p, net, Q), 'C02.S2', 'a new position opens with net quantity = fill quantity [%s]' % cond_str(p),
                     ctx.fn('Position.open_from_transaction').site(), fmt(net), key='C02.S2|open')
         ctx.require(same(p, f.get('current_price', ZERO), A(TX, 'price')), 'C02.S5', 'a new position is valued at its fill price [%s]' % cond_str(p),
